@@ -261,8 +261,8 @@ def _bound_safe(E, hb, e, depth=0):
     body = hb["body"]
     if depth > 16:
         return False, "too deep"
-    if k == "Lit":
-        v = e["lit"].get("v")
+    if k == "Lit" or (k == "Path" and isinstance(lit_value(e), int) and not isinstance(lit_value(e), bool)):
+        v = lit_value(e)
         if v == 0:
             return True, "0"
         lits = _ascii_byte_lits(body)
